@@ -30,7 +30,7 @@ def check(ctx, rep, tier):
                  "for a positive timeout (abstract interpretation of the closure)")
     rep.describe("best-so-far", "the single-result entry point selects from whatever the stream "
                  "yielded (shared with C14)")
-    cm = ctx.mod("ctparse.ctparse")
+    cm = ctx.imod("ctparse.ctparse")
     f = cm.func("_ctparse")
     closure, ctor_call = _closure_var(cm, f)
     _loops(ctx, rep, cm, f, closure)
@@ -267,7 +267,7 @@ def _contained(ctx, rep, cm, f, closure):
                 "" if ok else "a deadline check outside a handler for the timeout exception: the call can raise")
     rep.count("closure_call_sites", n, 2)
     # the entry points have no other try that could mask/raise
-    tm = ctx.mod("ctparse.timers")
+    tm = ctx.imod("ctparse.timers")
     exc = [c for c in tm.classes.values() if c.name == "CTParseTimeoutError"]
     if not exc:
         raise AnalysisError("anchor vanished: CTParseTimeoutError")
@@ -305,20 +305,27 @@ def _noninterference(ctx, rep, cm, f, closure):
     rep.add("non-interference", cm.rel + "::_ctparse::timeout and closure uses", cm.where(f), bad is None,
             bad or "")
     # the closure writes nothing non-local
-    tm = ctx.mod("ctparse.timers")
-    tt = tm.funcs.get("timeout._tt")
+    tm = ctx.imod("ctparse.timers")
+    # the closure is whatever nested function timeout() returns, under any name
+    outer_t = tm.func("timeout")
+    tt = None
+    for r in ast.walk(outer_t):
+        if isinstance(r, ast.Return) and isinstance(r.value, ast.Name):
+            cand = tm.funcs.get("timeout." + r.value.id)
+            if cand is not None:
+                tt = cand
     if tt is None:
         raise AnalysisError("anchor vanished: timers.timeout closure")
     writes = [n for n in ast.walk(tt) if isinstance(n, (ast.Global, ast.Nonlocal)) or
               (isinstance(n, (ast.Attribute, ast.Subscript)) and isinstance(n.ctx, ast.Store))]
-    rep.add("non-interference", tm.rel + "::timeout._tt::no writes", tm.where(tt), not writes,
+    rep.add("non-interference", tm.rel + "::timeout closure::no writes", tm.where(tt), not writes,
             "" if not writes else "the deadline closure writes state: " + norm(writes[0])[:50])
 
 
 def _zero(ctx, rep):
     eng = get_engine(ctx)
     ip = eng.interp
-    tm = ctx.mod("ctparse.timers")
+    tm = ctx.imod("ctparse.timers")
     outer = tm.func("timeout")
     for label, val, want_raise in (("timeout 0", IntV(0, 0), False), ("timeout > 0", IntV(1, 3600), True)):
         st = State()
